@@ -639,3 +639,35 @@ func (w *World) underFact(b *ssa.BasicBlock, f atom) bool {
 	}
 	return false
 }
+
+// runUnderBool: under the fact every path of the boolean function fn returns the
+// constant `want` (and the fact was consulted by a condition on the way).
+func (w *World) runUnderBool(fn *ssa.Function, fact atom, want bool) (bool, string) {
+	fe := w.newFactEval(nil, fact)
+	saved := w.branchMarkers
+	w.branchMarkers = false
+	paths, complete := w.enumPaths(fn, fe.eval, func(ssa.Instruction) string { return "" }, 2000)
+	w.branchMarkers = saved
+	if !complete {
+		return false, "path enumeration incomplete"
+	}
+	if len(fe.used) == 0 {
+		return false, "the comparison is never consulted"
+	}
+	n := 0
+	for _, p := range paths {
+		if p.Ret == nil {
+			continue
+		}
+		ret := p.Ret
+		if len(ret.Results) != 1 {
+			return false, "unexpected exit"
+		}
+		n++
+		c, isC := ret.Results[0].(*ssa.Const)
+		if !isC || c.Value == nil || c.Value.Kind() != constant.Bool || constant.BoolVal(c.Value) != want {
+			return false, "a path returns " + w.Canon(ret.Results[0])
+		}
+	}
+	return n > 0, fmt.Sprintf("%d path(s)", n)
+}
